@@ -114,7 +114,7 @@ def printer_events(arm_body):
             return
         if k == "If":
             c = e["cond"]
-            if c.get("k") == "Binary" and c["op"] == "Lt" and H.expr_str(c["a"]) == "prec":
+            if c.get("k") == "Binary" and c["op"] == "Lt" and H.local_name(c["a"]) and "Precedence" in c["a"].get("ty", ""):
                 inner = [is_lit_write(x) for x in hir_walk(e["then"]) if isinstance(x, dict)]
                 inner = [x for x in inner if x]
                 which = "open" if any(x[0] == "lit" and x[1] == "(" for x in inner) else "close" if any(x[0] == "lit" and x[1] == ")" for x in inner) else "?"
